@@ -98,8 +98,10 @@ def run_build_operators(mutate=None):
     def body(L):
         L.ns["sp"] = SPF
         M = oc.setup_mesh()
-        for name in ("SUPERLU", "UMFPACK", "PARDISO"):
-            ops = L["MeshOperators"](M.mesh, getattr(L["SparseSolver"], name), use_cupy=False, fixed_sites=None, fix_psi=False)
+        for name in ("SUPERLU", "UMFPACK", "PARDISO", "SUPERLU; device with terminals"):
+            # with terminals the order parameter is pinned on fixed_sites - the scalar potential never is (pure Neumann problem)
+            pinned = "terminals" in name
+            ops = L["MeshOperators"](M.mesh, getattr(L["SparseSolver"], name.split(";")[0]), use_cupy=False, fixed_sites=(M.fixed_sites if pinned else None), fix_psi=pinned)
             ops.build_operators()
             ax = oc.edge_ax(M)
             check(f"C03.operators_object.shapes[{name}]", z3.And(sym.eq(ops.mu_laplacian.shape[0], M.N), sym.eq(ops.mu_laplacian.shape[1], M.N),
@@ -109,7 +111,7 @@ def run_build_operators(mutate=None):
             compare_blocks(f"C03.operators_object.divergence_is_the_divergence[{name}]", ops.divergence.blocks, oc.divergence_spec(M), [], ax)
             compare_blocks(f"C03.operators_object.boundary_laplacian_is_the_neumann_matrix[{name}]", ops.mu_boundary_laplacian.blocks, oc.neumann_spec(M), [], ax)
             lu = ops.mu_laplacian_lu
-            if name == "PARDISO":
+            if name.startswith("PARDISO"):
                 check(f"C03.operators_object.no_stale_factorisation[{name}]", z3.BoolVal(lu is None))
             else:
                 check_same(f"C03.operators_object.factorisation_is_of_the_scalar_laplacian[{name}]", [(lu.matrix, ops.mu_laplacian)] if isinstance(lu, Factor) else [], also=isinstance(lu, Factor))
@@ -205,6 +207,8 @@ MUTANTS = [
     dict(name="neumann uses boundary index as edge index", edits=[(M_, "boundary_edges_length = edge_mesh.edge_lengths[edge_mesh.boundary_edge_indices]", "boundary_edges_length = edge_mesh.edge_lengths[boundary_index]")]),
     dict(name="CSC buffers relabelled as CSR for pardiso", edits=[(M_, "            self.mu_laplacian = sp.csc_matrix(self.mu_laplacian)\n            self.mu_laplacian_lu = None",
                                                                     "            lap = self.mu_laplacian\n            self.mu_laplacian = sp.csr_matrix((lap.data, lap.indices, lap.indptr), shape=lap.shape)\n            self.mu_laplacian_lu = None")], units=["MeshOperators.build_operators"]),
+    dict(name="scalar Laplacian pinned on the terminal sites", edits=[(M_, "        self.mu_laplacian, _ = build_laplacian(mesh, weights=self.laplacian_weights)",
+                                                                       "        self.mu_laplacian, _ = build_laplacian(mesh, fixed_sites=self.fixed_sites, weights=self.laplacian_weights)")], units=["MeshOperators.build_operators"]),
     dict(name="factorisation of a different matrix", edits=[(M_, "            self.mu_laplacian_lu = sp.linalg.factorized(self.mu_laplacian)", "            self.mu_laplacian_lu = sp.linalg.factorized(self.mu_boundary_laplacian)")], units=["MeshOperators.build_operators"]),
     dict(name="benign: reordered laplacian blocks", expect="pass", edits=[
         (M_, "rows = np.concatenate([edges0, edges1, edges0, edges1])\n    cols = np.concatenate([edges1, edges0, edges0, edges1])", "rows = np.concatenate([edges0, edges1, edges1, edges0])\n    cols = np.concatenate([edges1, edges0, edges1, edges0])"),
